@@ -585,14 +585,14 @@ def run(ctx) -> None:
     lang = ctx.guard("TABLES.language", "Formatter._TOKENS", token_language, m.rel)
     if lang is not None:
         _writer(ctx, m, T, docs, lang)
-    _reader(ctx, m, T, docs)
-    _width_scale(ctx, m, T)
-    _offsets(ctx, m)
-    _zone_and_extraction(ctx, m, T)
-    _named_formats(ctx)
-    _from_format(ctx)
-    _defaulting(ctx, m)
-    _timestamp_fraction(ctx, m)
+    ctx.step(_reader, ctx, m, T, docs)
+    ctx.step(_width_scale, ctx, m, T)
+    ctx.step(_offsets, ctx, m)
+    ctx.step(_zone_and_extraction, ctx, m, T)
+    ctx.step(_named_formats, ctx)
+    ctx.step(_from_format, ctx)
+    ctx.step(_defaulting, ctx, m)
+    ctx.step(_timestamp_fraction, ctx, m)
     ctx.expect_min("SCALE.timestamp", 1)
     ctx.expect_min("DEFAULTS.fill", 6)
     ctx.expect_min("TABLES.language", 40)
